@@ -252,6 +252,32 @@ func bbRecount(vp base.Voteproof, suf base.Suffrage) (result base.VoteResult, ma
 	}
 }
 
+// bbDescribe names the voters and the expelled nodes of a voteproof by their index in the suffrage.
+func bbDescribe(vp base.Voteproof, c *common.Cluster) string {
+	idx := func(a base.Address) string {
+		for i, nd := range c.Nodes {
+			if nd.Address().Equal(a) {
+				return fmt.Sprintf("node%d", i)
+			}
+		}
+
+		return a.String()
+	}
+
+	var voters, expelled []string
+	for _, sf := range vp.SignFacts() {
+		voters = append(voters, idx(sf.Node()))
+	}
+
+	if w, ok := vp.(base.HasExpels); ok {
+		for _, e := range w.Expels() {
+			expelled = append(expelled, idx(e.ExpelFact().Node()))
+		}
+	}
+
+	return fmt.Sprintf("suffrage=%d voters=%v expelled=%v", len(c.Nodes), voters, expelled)
+}
+
 type bbState struct {
 	w          *bbWorld
 	box        *isaacstates.Ballotbox
@@ -349,7 +375,7 @@ func (s *bbState) judge(vp base.Voteproof) {
 	}
 
 	if err := isaac.IsValidVoteproofWithSuffrage(vp, suf); err != nil {
-		r.Fail("invalid-voteproof", kind+":with-suffrage", "emitted voteproof for %s (%d sign facts, result %s) fails IsValidVoteproofWithSuffrage: %v", pk, len(vp.SignFacts()), vp.Result(), err)
+		r.Fail("invalid-voteproof", kind+":with-suffrage", "emitted voteproof for %s (%d sign facts, result %s) fails IsValidVoteproofWithSuffrage: %v; %s", pk, len(vp.SignFacts()), vp.Result(), err, bbDescribe(vp, s.w.c))
 	}
 
 	// (4) result equals a fresh recount
@@ -494,6 +520,7 @@ func bbRun(r *simkit.Run, c05 bool) {
 	type ctl struct {
 		kind int
 		pt   int
+		some int // kind 6: 0 = expels for all missing nodes, k>0 = only for some of them
 	}
 
 	points := []base.StagePoint{
@@ -504,6 +531,10 @@ func bbRun(r *simkit.Run, c05 bool) {
 	cplan := make([]ctl, ncontrol)
 	for i := range cplan {
 		cplan[i] = ctl{kind: r.Choose(7), pt: r.Choose(len(points))}
+
+		if cplan[i].kind == 6 && r.Chance(1, 2) {
+			cplan[i].some = 1 + r.Choose(4)
+		}
 	}
 
 	r.Go("control", func() {
@@ -542,6 +573,14 @@ func bbRun(r *simkit.Run, c05 bool) {
 				// MissingNodes never names the local node (a node votes its own ballot first); keep to that situation
 				if len(box.Voted(pt, []base.Address{w.c.Nodes[0].Address()})) < 1 {
 					return
+				}
+
+				// the expels that gathered enough signatures may cover only some of the missing nodes
+				// (SuffrageVoting.Find answers with what it has); a node whose ballot has not arrived here
+				// can still have signed the expel of another node
+				if cs.some > 0 && len(missing) > 1 {
+					missing = missing[:1+(cs.some-1)%(len(missing)-1)]
+					r.Probe("stuck_with_expels_of_some_missing_nodes")
 				}
 
 				var signers []base.LocalNode
@@ -627,7 +666,7 @@ func init() {
 		Run:  func(r *simkit.Run) { bbRun(r, false) },
 		Real: []string{"isaacstates.Ballotbox (Vote, Count, SetLastPoint, StuckVoteproof paths via count, MissingNodes, Voted, ticker)", "voterecords", "isaac.IsValidVoteproofWithSuffrage", "base.IsValidVoteproof", "ballot/voteproof/expel types, secp256k1 signatures"},
 		Stub: []string{"suffrage lookup (harness function that can answer not-found-yet or fail)", "ballots are signed by the harness with the remote nodes' keys and pass Ballot.IsValid before delivery, as launch does"},
-		Rule: "each run draws a suffrage of 1-5 nodes, a threshold (67/75/100), 1-4 consecutive stage points (h33r0 INIT, h33r0 ACCEPT, h33r1 INIT after a draw, h34r0 INIT), honest and conflicting facts, nodes sending two ballots, ballots with expels and suffrage-confirm ballots over an expel voteproof, embedded voteproofs (majority and draw), duplicated deliveries in tape-chosen order by 1-4 concurrent voter tasks, a control task (Count, SetLastPoint, MissingNodes, Voted, sleeps), the box's ticker on the fake clock, and a suffrage lookup that is unknown for the first k calls or fails. Every voteproof received from Voteproof() is judged by the four clauses of the statement with an independent recount. distinct = event-log hash",
+		Rule: "each run draws a suffrage of 1-5 nodes, a threshold (67/75/100), 1-4 consecutive stage points (h33r0 INIT, h33r0 ACCEPT, h33r1 INIT after a draw, h34r0 INIT), honest and conflicting facts, nodes sending two ballots, ballots with expels and suffrage-confirm ballots over an expel voteproof, embedded voteproofs (majority and draw), duplicated deliveries in tape-chosen order by 1-4 concurrent voter tasks, a control task (Count, SetLastPoint, MissingNodes, Voted, sleeps, and the stuck resolver's step: MissingNodes, then StuckVoteproof with valid expels of all or of only some of the nodes named missing; the returned voteproof is judged like an emitted one), the box's ticker on the fake clock, and a suffrage lookup that is unknown for the first k calls or fails. Every voteproof received from Voteproof() is judged by the four clauses of the statement with an independent recount. distinct = event-log hash",
 		Assumptions: []string{"the required vote count in the recount comes from base.Threshold.Threshold (subject of C02)", "ballots reach Vote only if Ballot.IsValid(networkID) passes, as in launch"},
 	})
 }
